@@ -1,0 +1,96 @@
+//go:build verif
+
+package option
+
+// Comment-only file: machine-checked contracts for /verif (see /verif/DESIGN.md).
+// There is no code in this file; the build tag keeps it out of every normal build.
+//
+// C17 - option transformations do only what they document.
+//
+// A selector is a read-only, deterministic predicate on (builder, option).
+//@ functype Selector
+//@   property C17
+//@   pure
+//@   modifies nothing
+//
+//@ spec trailGrown(n, o) = len(n) == len(o) + 1
+//
+// rename: one option comes back; only its name (and trail) differ from the input.
+//@ func RenameAction$1
+//@   property C17
+//@   modifies spare-capacity
+//@   ensures  one: len(result) == 1 && fresh(result)
+//@   ensures  renamed: result[0].Name == newName && trailGrown(result[0].VeneerTrail, option.VeneerTrail)
+//@   ensures  rest: with(with(result[0], "Name", option.Name), "VeneerTrail", option.VeneerTrail) == option
+//
+// omit: no option comes back.
+//@ func OmitAction$1
+//@   property C17
+//@   modifies nothing
+//@   ensures  none: len(result) == 0
+//
+// duplicate: the original option comes back first, unchanged; the second one is a deep copy of it
+// under the new name (arguments, assignments and default included).
+//@ func DuplicateAction$1
+//@   property C17
+//@   modifies spare-capacity
+//@   ensures  two: len(result) == 2 && fresh(result)
+//@   ensures  original: result[0] == option
+//@   ensures  copy: result[1].Name == duplicateName && copyrel(option.Args, result[1].Args) && copyrel(option.Assignments, result[1].Assignments) && copyrel(option.Default, result[1].Default) && len(result[1].Comments) == len(option.Comments)
+//
+// add_comments: the comments are appended; name, arguments, assignments and default are kept.
+//@ func AddCommentsAction$1
+//@   property C17
+//@   modifies spare-capacity
+//@   ensures  one: len(result) == 1 && fresh(result)
+//@   ensures  kept: result[0].Name == option.Name && result[0].Args == option.Args && result[0].Assignments == option.Assignments && result[0].Default == option.Default
+//@   ensures  comments: len(result[0].Comments) == len(option.Comments) + len(comments)
+//
+// array_to_append / map_to_index: options they do not apply to come back unchanged; otherwise one
+// option comes back under the same name whose first assignment still targets the same path, now
+// appending (indexing), with the argument retyped to the element (value) type; the other assignments,
+// the comments and the default are kept. The argument record shared with the original assignment is
+// updated in place.
+//@ func ArrayToAppendAction$1
+//@   property C17
+//@   requires len(option.Assignments) >= 1
+//@   modifies option.Assignments[0].Value.Argument.Name, option.Assignments[0].Value.Argument.Type, spare-capacity
+//@   ensures  one: len(result) == 1 && fresh(result)
+//@   ensures  unchanged: (len(option.Args) != 1 || option.Args[0].Type.Kind != ast.KindArray) ==> result[0] == option
+//@   ensures  applied: len(option.Args) == 1 && option.Args[0].Type.Kind == ast.KindArray ==> result[0].Name == option.Name && result[0].Comments == option.Comments && result[0].Default == option.Default && len(result[0].Args) == 1 && result[0].Args[0].Type == old(option.Args[0].Type.Array.ValueType) && len(result[0].Assignments) == len(option.Assignments) && result[0].Assignments[0].Path == old(option.Assignments[0].Path) && result[0].Assignments[0].Method == ast.AppendAssignment && result[0].Assignments[0].Constraints == old(option.Assignments[0].Constraints)
+//@   ensures  others: len(option.Args) == 1 && option.Args[0].Type.Kind == ast.KindArray ==> (forall a: int :: 1 <= a && a < len(option.Assignments) ==> result[0].Assignments[a] == old(option.Assignments[a]))
+//
+//@ func MapToIndexAction$1
+//@   property C17
+//@   requires len(option.Assignments) >= 1
+//@   modifies option.Assignments[0].Value.Argument.Name, option.Assignments[0].Value.Argument.Type, spare-capacity
+//@   ensures  one: len(result) == 1 && fresh(result)
+//@   ensures  unchanged: (len(option.Args) != 1 || option.Args[0].Type.Kind != ast.KindMap) ==> result[0] == option
+//@   ensures  applied: len(option.Args) == 1 && option.Args[0].Type.Kind == ast.KindMap ==> result[0].Name == option.Name && result[0].Comments == option.Comments && result[0].Default == option.Default && len(result[0].Args) == 2 && result[0].Args[0].Type == old(option.Args[0].Type.Map.IndexType) && result[0].Args[1].Type == old(option.Args[0].Type.Map.ValueType) && len(result[0].Assignments) == len(option.Assignments) && result[0].Assignments[0].Method == ast.IndexAssignment
+//@   ensures  target: len(option.Args) == 1 && option.Args[0].Type.Kind == ast.KindMap ==> len(result[0].Assignments[0].Path) == old(len(option.Assignments[0].Path)) + 1 && (forall p: int :: 0 <= p && p < old(len(option.Assignments[0].Path)) ==> result[0].Assignments[0].Path[p] == old(option.Assignments[0].Path[p]))
+//
+// unfold_boolean: an option that does not assign a boolean comes back unchanged; otherwise two
+// argument-less options come back, named as configured, each with one constant assignment to the
+// same target path, keeping the comments.
+//@ func UnfoldBooleanAction$1
+//@   property C17
+//@   requires len(option.Assignments) >= 1 && len(option.Assignments[0].Path) >= 1
+//@   modifies spare-capacity
+//@   ensures  unchanged: !(option.Assignments[0].Path[len(option.Assignments[0].Path) - 1].Type.Kind == ast.KindScalar && option.Assignments[0].Path[len(option.Assignments[0].Path) - 1].Type.Scalar.ScalarKind == ast.KindBool) ==> len(result) == 1 && result[0] == option
+//@   ensures  unfolded: option.Assignments[0].Path[len(option.Assignments[0].Path) - 1].Type.Kind == ast.KindScalar && option.Assignments[0].Path[len(option.Assignments[0].Path) - 1].Type.Scalar.ScalarKind == ast.KindBool ==> len(result) == 2 && result[0].Name == unfoldOpts.OptionTrue && result[1].Name == unfoldOpts.OptionFalse && len(result[0].Args) == 0 && len(result[1].Args) == 0 && result[0].Comments == option.Comments && result[1].Comments == option.Comments && len(result[0].Assignments) == 1 && len(result[1].Assignments) == 1 && result[0].Assignments[0].Path == old(option.Assignments[0].Path) && result[1].Assignments[0].Path == old(option.Assignments[0].Path) && result[0].Assignments[0].Value.Argument == nil && result[1].Assignments[0].Value.Argument == nil && result[0].Assignments[0].Method == ast.DirectAssignment && result[1].Assignments[0].Method == ast.DirectAssignment
+//
+// Selectors: the package is compared exactly, builder/object and option names case-insensitively.
+//@ func ByName$1
+//@   property C17
+//@   modifies nothing
+//@   ensures  result == (builder.For.SelfRef.ReferredPkg == pkg && eqfold(builder.For.Name, objectName) && (exists n: int :: 0 <= n && n < len(optionNames) && eqfold(optionNames[n], option.Name)))
+//
+//@ func ByBuilder$1
+//@   property C17
+//@   modifies nothing
+//@   ensures  result == (builder.Package == pkg && eqfold(builder.Name, builderName) && (exists n: int :: 0 <= n && n < len(optionNames) && eqfold(optionNames[n], option.Name)))
+//
+//@ func EveryOption$1
+//@   property C17
+//@   modifies nothing
+//@   ensures  result
